@@ -43,6 +43,8 @@ FIXES = [
   "a parent-side child update (API thread) ran the post-save listener with schedule_and_finish_existing for the child's SyncParent task while the scheduler thread was executing exactly that task; the scheduler could then not finish/reschedule it ('failed to move running/... to pending/...') and called process::exit"),
  ("refuse a publisher whose directory overlaps with that of another publisher", "C10", "overlapping_publisher_accepted",
   "(also C11) publishers 'a' and 'a/b' (handles may contain '/') have nested base URIs: 'a' could publish at URIs of 'a/b'; the RRDP snapshot then listed the same URI twice, clients could not apply the deltas and the rsync files overwrote each other"),
+ ("let the trust anchor signer refuse a request it has already processed", "C15", "request_answered_twice",
+  "the TA signer processed a validly signed request again when it was delivered a second time (same nonce) or replayed from an earlier round: child certificates issued twice, manifest and CRL moved on, a second exchange stored - while the proxy accepts one response per request"),
 ]
 
 log = subprocess.run(["git", "-C", "/repo", "log", "--format=%h %s", "--grep=^fix:"],
